@@ -15,7 +15,8 @@ InitFails(L) == \E p \in 1..NP(L) : L.producers[p].init = "raise"
 MainFails(L) == \E p \in 1..NP(L) : L.producers[p].main = "raise"
 \* how the run may end
 ExpectedOutcomes(L) ==
-  IF InitFails(L) THEN {"raised_producer_error"}
+  IF L.exit = "stop_during_init" THEN {"returned"} \cup (IF InitFails(L) THEN {"raised_producer_error"} ELSE {})
+  ELSE IF InitFails(L) THEN {"raised_producer_error"}
   ELSE IF L.exit = "external_cancel" THEN {"raised_cancelled"} \cup (IF MainFails(L) THEN {"raised_producer_error"} ELSE {})
                                           \cup (IF L.disp = "bt" THEN {"returned"} ELSE {})   \* the backtest was over before the cancellation
   \* a failing main() races with the end of the run: a backtest may be over (sources exhausted) or a stop may have been
